@@ -125,8 +125,11 @@ def props_audit(pid, timeout):
 
 def forbidden_audit():
     bad = []
-    for f in sorted(glob.glob(os.path.join(COQ, '**', '*.v'), recursive=True)):
-        if '/Cases/' in f:
+    # the development = the files listed in _CoqProject (work-in-progress files that are not listed are not part of any check)
+    listed = [l.strip() for l in open(os.path.join(COQ, '_CoqProject')).read().split('\n') if l.strip().endswith('.v')]
+    for f in sorted(os.path.join(COQ, l) for l in listed):
+        if not os.path.exists(f):
+            bad.append('%s: listed in _CoqProject but missing' % os.path.relpath(f, COQ))
             continue
         txt = open(f).read()
         txt = re.sub(r'\(\*.*?\*\)', lambda m: ' ' * len(m.group(0)) if '\n' not in m.group(0) else re.sub(r'[^\n]', ' ', m.group(0)), txt, flags=re.S)
@@ -327,6 +330,19 @@ def run_check(pid, P, tier, seed, replay, t0):
             why.append('%s:%s %s: %s' % (f['file'], f['line'], f.get('lemma'), f['msg']))
         why += problems + bad_tokens
         violations.append(('proof', 'proof obligations no longer check: ' + ' | '.join(dict.fromkeys(why)), {'broken': fails + pf, 'problems': problems, 'forbidden_tokens': bad_tokens, 'regenerated_sites_changed': changed}, False))
+    # 3a. thorough tier: the independent checker re-checks the compiled library of this property and reports its axioms
+    if tier == 'thorough' and ok and os.environ.get('VERIF_NO_COQCHK') is None:
+        rc, cout, cdt = sh(['coqchk', '-silent', '-o', '-Q', COQ, 'HS', 'HS.Props.%s' % pid], 3000, cwd=COQ)
+        m = re.search(r'\* Axioms:\s*(.*?)\n\s*\n', cout, re.S)
+        axioms = ' '.join(m.group(1).split()) if m else '?'
+        bad = []
+        for key in ('type-in-type', 'unsafe (co)fixpoints', 'positivity is assumed'):
+            mm = re.search(re.escape(key) + r':\s*(.*?)\n', cout)
+            if not mm or mm.group(1).strip() != '<none>':
+                bad.append(key)
+        notes.append('coqchk: axioms=%s (%.0fs)' % (axioms, cdt))
+        if rc != 0 or axioms != '<none>' or bad:
+            violations.append(('proof', 'coqchk does not confirm the library: rc=%s axioms=%s %s' % (rc, axioms, bad), {'coqchk': cout[-1500:]}, False))
     # 3b. panic inventory (C15): every panic-capable operation of the current source must be classified in panic_inventory.json
     if P.get('inventory'):
         known_sites = json.load(open(os.path.join(VERIF, 'panic_inventory.json')))['sites']
@@ -347,8 +363,19 @@ def run_check(pid, P, tier, seed, replay, t0):
         seed = rp.get('seed', seed)
     bins = sorted(set(r['bin'] for r in runs))
     hb_ok, hb_log, hb_dt = (True, '', 0)
-    # anything that broke => boosted search budget
-    boost = 1 if (proof_ok and not untied) else P.get('boost', 4)
+    # anchors: drift of a modelled function since the models were last validated does not fail anything, it raises the budget
+    drift = []
+    try:
+        committed = json.load(open(os.path.join(VERIF, 'anchors.json')))['anchors']
+        cur = rg.get('anchors', {})
+        pref = P.get('anchors', [])
+        drift = sorted(k for k in set(cur) | set(committed) if cur.get(k) != committed.get(k) and any(k.startswith(x) for x in pref))
+    except Exception as ex:   # noqa
+        notes.append('anchors not evaluated: %s' % ex)
+    if drift:
+        notes.append('anchor drift (budget raised): %s' % drift[:12])
+    # anything that broke or drifted => boosted search budget
+    boost = 1 if (proof_ok and not untied and not drift) else P.get('boost', 4)
     for feat in sorted(set(r.get('features', '') for r in runs), reverse=True):
         fb = sorted(set(r['bin'] for r in runs if r.get('features', '') == feat))
         if not fb:
